@@ -51,7 +51,13 @@
 //! timing dependence — it is a pure state machine over the chunk sequence).
 //!
 //! Sensitivity probes (tools/mutrun, patches in crates/vf-list/probes/, quick tier):
-//! PROBE-VERDICTS-C26
+//! 1. boundary_stream.rs: fetch from `raw_start` instead of `raw_start - 1`;
+//! 2. boundary_stream.rs: the lookahead refill GET starts at `pos + 1` (drops one byte);
+//! 3. boundary_stream.rs: `search_from = chunk_in_range_len` (a terminator exactly at `end - 1` is missed, the
+//!    next line is read twice).
+//! All three are env-guarded in probes/combined-datasource-env-guarded.diff and run by probes/run-all.sh;
+//! verdicts in probes/log-all.txt (the run was still queued behind the machine-wide mutrun slots when this header
+//! was written).
 use crate::chunkstore::ChunkStore;
 use crate::util::*;
 use bytes::Bytes;
